@@ -89,7 +89,7 @@ class Harness:
             with np.errstate(all="ignore"):
                 v = float(f.evaluate(np.array(self.xs[xn], dtype=float)))
             rec = {"x": xn, "mode": mode, "v": f64(v), "lo": f64(0.0), "hi": f64(0.0),
-                   "failat": self.ncases + 1}
+                   "failat": self.ncases + 1, "js": [], "vs": []}
             if mode == "raw":
                 js = self.case_merits(self.xs[xn])
                 fail = next((i + 1 for i, j in enumerate(js) if not (0.0 <= j <= 1e100)), self.ncases + 1)
@@ -102,6 +102,13 @@ class Harness:
                         hi = float(np.nextafter(hi, math.inf))
                     rec["lo"], rec["hi"] = f64(lo), f64(hi)
                 rec["case_merits"] = [repr(j) for j in js]
+                if fail > self.ncases and all(j >= 0 for j in js):
+                    from fractions import Fraction
+                    fr = [Fraction(j) for j in js] + [Fraction(v)]
+                    den = max(q.denominator for q in fr)       # a power of two
+                    if den.bit_length() < 900:
+                        rec["js"] = [core.big(int(q * den)) for q in fr[:-1]]
+                        rec["vs"] = core.big(int(fr[-1] * den))
             self.fresh[key] = rec
         return self.fresh[key]
 
